@@ -152,7 +152,8 @@ def build_harness():
         shutil.rmtree(src, ignore_errors=True)
         shutil.copytree(HARNESS_DIR, src, ignore=shutil.ignore_patterns("target", "Cargo.lock"))
         ct = os.path.join(src, "Cargo.toml")
-        open(ct, "w").write(open(ct).read().replace('path = "/repo"', 'path = "%s"' % os.path.realpath(REPO)))
+        txt = open(ct).read().replace('path = "/repo"', 'path = "%s"' % os.path.realpath(REPO))
+        open(ct, "w").write(txt)
     lock = os.path.join(src, "Cargo.lock")
     if not os.path.exists(lock):
         shutil.copy(os.path.join(REPO, "Cargo.lock"), lock)
